@@ -1,3 +1,4 @@
+open BinNat
 open BinNums
 open BinPos
 open Datatypes
@@ -89,6 +90,18 @@ module Z =
        | Zpos y' -> Zneg (Pos.mul x' y')
        | Zneg y' -> Zpos (Pos.mul x' y'))
 
+  (** val pow_pos : coq_Z -> positive -> coq_Z **)
+
+  let pow_pos z =
+    Pos.iter (mul z) (Zpos Coq_xH)
+
+  (** val pow : coq_Z -> coq_Z -> coq_Z **)
+
+  let pow x = function
+  | Z0 -> Zpos Coq_xH
+  | Zpos p -> pow_pos x p
+  | Zneg _ -> Z0
+
   (** val compare : coq_Z -> coq_Z -> comparison **)
 
   let compare x y =
@@ -147,6 +160,12 @@ module Z =
                  | Zneg q -> Pos.eqb p q
                  | _ -> false)
 
+  (** val abs : coq_Z -> coq_Z **)
+
+  let abs = function
+  | Zneg p -> Zpos p
+  | x -> x
+
   (** val to_nat : coq_Z -> nat **)
 
   let to_nat = function
@@ -158,6 +177,12 @@ module Z =
   let of_nat = function
   | O -> Z0
   | S n0 -> Zpos (Pos.of_succ_nat n0)
+
+  (** val of_N : coq_N -> coq_Z **)
+
+  let of_N = function
+  | N0 -> Z0
+  | Npos p -> Zpos p
 
   (** val pos_div_eucl : positive -> coq_Z -> coq_Z * coq_Z **)
 
@@ -213,4 +238,90 @@ module Z =
 
   let modulo a b =
     let (_, r) = div_eucl a b in r
+
+  (** val quotrem : coq_Z -> coq_Z -> coq_Z * coq_Z **)
+
+  let quotrem a b =
+    match a with
+    | Z0 -> (Z0, Z0)
+    | Zpos a0 ->
+      (match b with
+       | Z0 -> (Z0, a)
+       | Zpos b0 ->
+         let (q, r) = N.pos_div_eucl a0 (Npos b0) in ((of_N q), (of_N r))
+       | Zneg b0 ->
+         let (q, r) = N.pos_div_eucl a0 (Npos b0) in
+         ((opp (of_N q)), (of_N r)))
+    | Zneg a0 ->
+      (match b with
+       | Z0 -> (Z0, a)
+       | Zpos b0 ->
+         let (q, r) = N.pos_div_eucl a0 (Npos b0) in
+         ((opp (of_N q)), (opp (of_N r)))
+       | Zneg b0 ->
+         let (q, r) = N.pos_div_eucl a0 (Npos b0) in
+         ((of_N q), (opp (of_N r))))
+
+  (** val quot : coq_Z -> coq_Z -> coq_Z **)
+
+  let quot a b =
+    fst (quotrem a b)
+
+  (** val rem : coq_Z -> coq_Z -> coq_Z **)
+
+  let rem a b =
+    snd (quotrem a b)
+
+  (** val even : coq_Z -> bool **)
+
+  let even = function
+  | Z0 -> true
+  | Zpos p -> (match p with
+               | Coq_xO _ -> true
+               | _ -> false)
+  | Zneg p -> (match p with
+               | Coq_xO _ -> true
+               | _ -> false)
+
+  (** val odd : coq_Z -> bool **)
+
+  let odd = function
+  | Z0 -> false
+  | Zpos p -> (match p with
+               | Coq_xO _ -> false
+               | _ -> true)
+  | Zneg p -> (match p with
+               | Coq_xO _ -> false
+               | _ -> true)
+
+  (** val div2 : coq_Z -> coq_Z **)
+
+  let div2 = function
+  | Z0 -> Z0
+  | Zpos p -> (match p with
+               | Coq_xH -> Z0
+               | _ -> Zpos (Pos.div2 p))
+  | Zneg p -> Zneg (Pos.div2_up p)
+
+  (** val log2 : coq_Z -> coq_Z **)
+
+  let log2 = function
+  | Zpos p0 ->
+    (match p0 with
+     | Coq_xI p -> Zpos (Pos.size p)
+     | Coq_xO p -> Zpos (Pos.size p)
+     | Coq_xH -> Z0)
+  | _ -> Z0
+
+  (** val shiftl : coq_Z -> coq_Z -> coq_Z **)
+
+  let shiftl a = function
+  | Z0 -> a
+  | Zpos p -> Pos.iter (mul (Zpos (Coq_xO Coq_xH))) a p
+  | Zneg p -> Pos.iter div2 a p
+
+  (** val shiftr : coq_Z -> coq_Z -> coq_Z **)
+
+  let shiftr a n =
+    shiftl a (opp n)
  end
